@@ -52,7 +52,11 @@ func runSchedule(reqs []WReq, schedule string, locked bool) []WResp {
 		<-t.release
 	}
 	defer func() { converter.VerifYield = nil }()
-	for i := range reqs {
+	// a request arrives when the schedule first names it (arrival is a step of its own: what a handler does before its
+	// first yield point happens then, possibly while another request is converting); it then parks at "enter"
+	started := make([]bool, len(reqs))
+	launch := func(i int) {
+		started[i] = true
 		go func(i int) {
 			t := ths[i]
 			defer func() {
@@ -64,7 +68,6 @@ func runSchedule(reqs []WReq, schedule string, locked bool) []WResp {
 			serve(reqs[i], t.rec)
 		}(i)
 	}
-	// every request first parks at its first yield point ("enter")
 	trace := []string{}
 	wait := func(i int, d time.Duration) bool {
 		t := ths[i]
@@ -90,13 +93,10 @@ func runSchedule(reqs []WReq, schedule string, locked bool) []WResp {
 			return false
 		}
 	}
-	for i := range ths {
-		wait(i, 5*time.Second)
-	}
 	drain := func() {
 		// requests that were in flight may have moved on meanwhile
 		for i, t := range ths {
-			if !t.done && !t.parked && !(t.waiting && inside != -1) {
+			if started[i] && !t.done && !t.parked && !(t.waiting && inside != -1) {
 				wait(i, quiescence)
 			}
 		}
@@ -112,6 +112,12 @@ func runSchedule(reqs []WReq, schedule string, locked bool) []WResp {
 	for _, i := range order {
 		t := ths[i]
 		drain()
+		if !started[i] {
+			launch(i)
+			trace = append(trace, strconv.Itoa(i)+":arrives")
+			wait(i, 5*time.Second)
+			continue
+		}
 		if t.done {
 			continue
 		}
@@ -150,6 +156,10 @@ func runSchedule(reqs []WReq, schedule string, locked bool) []WResp {
 	for rounds := 0; rounds < 200; rounds++ {
 		all := true
 		for i, t := range ths {
+			if !started[i] {
+				launch(i)
+				wait(i, 5*time.Second)
+			}
 			if t.done {
 				continue
 			}
